@@ -2,16 +2,17 @@
 # selftest.sh [PROP]: applies each deliberate property-breaking mutant to /repo, runs the quick check,
 # requires a VIOLATION line matching the expected clause, and undoes the change. Run after every engine change.
 cd /verif
-if [ -n "$(git -C /repo status --porcelain)" ]; then echo "refusing to run: /repo has uncommitted changes"; exit 2; fi
+REPO=${VERIF_REPO:-/repo}
+if [ -n "$(git -C $REPO status --porcelain)" ]; then echo "refusing to run: /repo has uncommitted changes"; exit 2; fi
 fail=0; n=0
 while IFS=$'\t' read -r prop file expr expect; do
   case "$prop" in ''|\#*) continue;; esac
   [ -n "$1" ] && [ "$1" != "$prop" ] && continue
   n=$((n+1))
-  sed -i -E "$expr" /repo/$file
-  if [ -z "$(git -C /repo status --porcelain)" ]; then echo "MUTANT-NOT-APPLIED $prop $file $expr"; fail=1; continue; fi
+  sed -i -E "$expr" $REPO/$file
+  if [ -z "$(git -C $REPO status --porcelain)" ]; then echo "MUTANT-NOT-APPLIED $prop $file $expr"; fail=1; continue; fi
   out=$(bin/check $prop --no-evidence 2>&1)
-  git -C /repo checkout -- .
+  git -C $REPO checkout -- .
   if echo "$out" | grep "^VIOLATION" | grep -qE "$expect"; then echo "caught   $prop $file /$expect/"; else echo "MISSED   $prop $file $expr"; echo "$out" | grep "^VIOLATION" | head -3; fail=1; fi
 done < selftest/mutants.txt
 echo "selftest: $n mutants, fail=$fail"
